@@ -108,9 +108,9 @@ FILTER_PROGRAMS = [
     "@ true { break; }", "@ true { continue; }", "@ 1 { loop { break; } }", "@ true { let a = 1; a = a / 0; }",
     "fn f() { @ true { puts(1); } } f()", "{ @ true }", "@ $0", "@ $1", "@ $11", "@ $12 { }", "@ $99", "@ $(-1)",
     "@ $a", "let a = 5; @ $a", "@ true { puts($0, $1, $2, $3, $4, $5, $6, $7, $8, $9, $10, $11); }",
-    "@ true { puts($2.src, $2.payload, $3.flags); }", "@ true { $1.src = 5; }", "@ true { $1 = 5; }", "@ true { $0.eth = 5; puts($0); }",
-    "@ true { $0.eth = $0; puts($0); }", "@ true { $1.ipv4 = $1; pcap_write(pcap_stream(stdout), $0); }",
-    "@ NP > 1 @ NP > 2 @ end { puts(NP, PL, WL, TSS, TSU) }", "@ PL / 0", "@ \"x\"", "@ [] { }", "@ $1.type == 0x800",
+    "@ true { puts(($2).src, ($2).payload, ($3).flags); }", "@ true { ($1).src = 5; }", "@ true { $1 = 5; }", "@ true { ($0).eth = 5; puts($0); }",
+    "@ true { ($0).eth = 5; ($1); }", "@ true { ($1).ipv4 = 5; pcap_write(pcap_stream(stdout), $0); }",
+    "@ NP > 1 @ NP > 2 @ end { puts(NP, PL, WL, TSS, TSU) }", "@ PL / 0", "@ \"x\"", "@ [] { }", "@ ($1).type == 0x800",
     "@ true { let f = fn() { $1 }; puts(f()); }", "@ true { fn g() { return $2; } puts(g()); }",
     "let p = $0; puts(p); @ true", "puts($1);", "@ true { exit(3); }", "@ true { let a = []; loop { push(a, $0); if len(a) > 50 { break; } } }",
     "@ (fn() { true })()", "@ true { @ true { puts(1); } }", "@ end { @ end { } }", "@ end { } @ end { }",
